@@ -501,5 +501,9 @@ PROPS["C19"]["explanation"] += " (FMTTYPE) each hdp fmt<T> routine formats the v
 PROPS["C11"]["rules"] = PROPS["C11"]["rules"] + [rules_ann.rule_pending_ref_checked]
 PROPS["C11"]["explanation"] += " (PENDINGREF) ANIcreate steps over references held by annotations that exist in memory only before it adds a new entry."
 
+PROPS["C09"]["rules"] = PROPS["C09"]["rules"] + [rules_conv.rule_nt_record_class]
+PROPS["C09"]["explanation"] += " (NTCLASS) the number-type record written for an image carries the byte-order class of the image's type."
+PROPS["C06"]["rules"] = PROPS["C06"]["rules"] + [rules_conv.rule_nt_record_class]
+
 NOT_APPLICABLE = {}
 
